@@ -313,6 +313,11 @@ def mon_c11(h, obs):
                             f"after a crash with durable writes {mask} in block {hh}: chain index at {c}, state at {s}, blockfile has {b} blocks, head {head}", op))
             break
         skh, _, skb = (sk or "").partition("/")
+        skb, _, skx = skb.partition("/")
+        if sk is not None and c == s and skx and skx != (str(c) if c > 0 else "-"):
+            hits.append(Hit("C11/state-content-not-at-height/raw-byte-key",
+                            f"after a crash ({op.split()[0]} {mask}) in block {hh} the ledger reopens at height {c} but the raw-byte storage key every block writes holds the value of block {skx}", op))
+            break
         if sk is not None and c == s and skh != (str(c) if c > 0 else "-"):
             hits.append(Hit("C11/state-content-ahead-of-state-height" if skh.isdigit() and int(skh) > c else "C11/state-content-not-at-height",
                             f"after a crash ({op.split()[0]} {mask}) in block {hh} the ledger reopens at height {c} but the state store holds the data of block {skh}", op))
